@@ -53,8 +53,9 @@ pub fn render_attr(o: &Opts, rng: &mut Rng) -> String {
     }
     if !o.extern_enums.is_empty() {
         items.push(format!("extern_enums({})", o.extern_enums.iter().map(|e| format!("{:?}", e)).collect::<Vec<_>>().join(", ")));
-    } else if rng.chance(35) {
-        // the list form next to the other keys and flags; naming an enum the schema does not have changes nothing
+    } else if rng.chance(if o.skip_none { 75 } else { 35 }) {
+        // the list form next to the other keys and flags (most often when the bare flag is there too); naming an enum the
+        // schema does not have changes nothing
         items.push("extern_enums(\"NoSuchEnumInTheSchema\")".into());
     }
     if o.other_variant {
